@@ -3,6 +3,7 @@
 from __future__ import annotations
 
 import asyncio
+import errno
 import os
 from importlib.resources import files
 from pathlib import Path
@@ -73,9 +74,12 @@ class PackageLoader(BaseLoader):
             source_path = path.joinpath(str(template_path))
             try:
                 is_file = source_path.is_file()
-            except OSError:
-                # The OS rejected the path. The name is too long, for example.
-                continue
+            except OSError as err:
+                # The OS rejected the name itself, it is too long for example. Any
+                # other error says nothing about the template.
+                if err.errno in (errno.ENAMETOOLONG, errno.EINVAL):
+                    continue
+                raise
             if is_file:
                 # MyPy seems to think source_path has `Any` type :(
                 return source_path  # type: ignore
